@@ -126,6 +126,7 @@ type World struct {
 	transitions   int
 	log     []string
 	sawOverlong bool
+	corruptions int
 	consumers map[string]int // C10 reference model: registrations "piece/prio" -> count
 	chans     []*wchan
 }
@@ -181,6 +182,7 @@ type remote struct {
 	cancelledUp        []rc.Msg // requests we cancelled (a Fast peer acknowledges with a reject)
 	sentInterested     bool
 	served             int
+	metaReqs           []uint32 // ut_metadata requests received from storrent, unanswered
 	lastEmittedChoke   int
 }
 
@@ -716,7 +718,12 @@ func (r *remote) onFrame(m rc.Msg, raw []byte) {
 				}
 			}
 		}
-	case rc.Interested, rc.NotInterested, rc.KeepAlive, rc.Port, rc.ExtPex, rc.ExtMetadata:
+	case rc.ExtMetadata:
+		r.gotOther = true
+		if m.MsgType == 0 {
+			r.metaReqs = append(r.metaReqs, m.MPiece)
+		}
+	case rc.Interested, rc.NotInterested, rc.KeepAlive, rc.Port, rc.ExtPex:
 		if m.Kind != rc.KeepAlive {
 			r.gotOther = true
 		}
@@ -993,6 +1000,81 @@ func (w *World) apply(tr string) bool {
 				r.pendingUp = append(r.pendingUp, m)
 			}
 		}
+	case "manswer": // the remote answers every metadata request it has received with the true block
+		if r.closed || len(r.metaReqs) == 0 {
+			return false
+		}
+		for _, pc := range r.metaReqs {
+			off := int(pc) * wchunk
+			if off >= len(w.info) {
+				r.send(rc.Msg{Kind: rc.ExtMetadata, ID: protocol.ExtMetadata, MsgType: 2, MPiece: pc})
+				continue
+			}
+			end := off + wchunk
+			if end > len(w.info) {
+				end = len(w.info)
+			}
+			r.send(rc.Msg{Kind: rc.ExtMetadata, ID: protocol.ExtMetadata, MsgType: 1, MPiece: pc, TotalSize: uint32(len(w.info)), HasTotal: true, Data: append([]byte{}, w.info[off:end]...)})
+		}
+		r.metaReqs = nil
+	case "mdata": // mdata:<remote>:<index>:<content>:<total>:<length>   unsolicited / hostile metadata block
+		if r.closed {
+			return false
+		}
+		idx := uint32(arg(2))
+		size := len(w.info)
+		off := int(idx) * wchunk
+		tail := size - off
+		if tail > wchunk {
+			tail = wchunk
+		}
+		if tail < 0 {
+			tail = 0
+		}
+		l := tail
+		switch f[5] {
+		case "tail":
+		case "tail-1":
+			l = tail - 1
+		case "tail+1":
+			l = tail + 1
+		case "chunk":
+			l = wchunk
+		case "chunk+1":
+			l = wchunk + 1
+		case "0":
+			l = 0
+		case "1":
+			l = 1
+		}
+		if l < 0 {
+			return false
+		}
+		data := make([]byte, l)
+		for i := range data {
+			if f[3] == "true" && off+i < size {
+				data[i] = w.info[off+i]
+			} else {
+				data[i] = 0xEE
+			}
+		}
+		total := uint32(size)
+		switch f[4] {
+		case "0":
+			total = 0
+		case "other":
+			total = uint32(size) + 1
+		}
+		r.send(rc.Msg{Kind: rc.ExtMetadata, ID: protocol.ExtMetadata, MsgType: 1, MPiece: idx, TotalSize: total, HasTotal: total != 0, Data: data})
+		if f[3] != "true" || f[5] != "tail" {
+			w.corruptions++
+		}
+	case "mreject":
+		if r.closed || len(r.metaReqs) == 0 {
+			return false
+		}
+		r.send(rc.Msg{Kind: rc.ExtMetadata, ID: protocol.ExtMetadata, MsgType: 2, MPiece: r.metaReqs[0]})
+		r.metaReqs = r.metaReqs[1:]
 	case "raw": // raw:<remote>:<hex>  (hostile / arbitrary frame)
 		if r.closed {
 			return false
@@ -1113,6 +1195,7 @@ func (w *World) checkInvariants() {
 	if w.loopDead {
 		return
 	}
+	w.checkMetadata()
 	// C16: accounting of unchoked peers; bounded upload queue
 	cnt := 0
 	for _, r := range w.remotes {
@@ -1185,6 +1268,24 @@ func (w *World) checkInvariants() {
 	}
 	// C01 (consumer): whatever the store serves is true content
 	w.checkStore()
+}
+
+// checkMetadata: C12 safety.  Metadata is complete only if authentic and sane.
+func (w *World) checkMetadata() {
+	t := w.t
+	if !w.cfg.Magnet || !t.InfoComplete() {
+		return
+	}
+	h := sha1.Sum(t.Info)
+	if !bytes.Equal(h[:], t.Hash) {
+		w.problem("C12", "C12/forged-metadata-accepted", "the torrent became usable with an info dictionary whose SHA-1 (%x) is not the info-hash (%v)", h, t.Hash)
+	}
+	if !bytes.Equal(t.Info, w.info) {
+		w.problem("C12", "C12/metadata-differs", "the accepted info dictionary differs from the true one")
+	}
+	if g := geometry(t); g != "" {
+		w.problem("C12", "C12/geometry", "metadata accepted with inconsistent geometry: %s", g)
+	}
 }
 
 func (w *World) checkStore() {
@@ -1289,7 +1390,8 @@ func (w *World) canon() string {
 			fmt.Fprintf(&sb, "P%d %x %v|", i, []byte(bm), t.Pieces.Complete(uint32(i)))
 		}
 	} else {
-		fmt.Fprintf(&sb, "M %x %v %v|", []byte(t.infoBitmap), t.infoRequested, t.infoSizeVotes)
+		ih := sha1.Sum(t.Info)
+		fmt.Fprintf(&sb, "M %x %v %v %d %x|", []byte(t.infoBitmap), t.infoRequested, t.infoSizeVotes, len(t.Info), ih[:4])
 	}
 	for _, r := range w.remotes {
 		st := r.p.VerifState()
@@ -1306,7 +1408,7 @@ func (w *World) canon() string {
 		for _, o := range r.pendingUp {
 			pu = append(pu, fmt.Sprintf("%d/%d/%d", o.Index, o.Begin, o.Length))
 		}
-		fmt.Fprintf(&sb, " ch=%v out=%v pu=%v ubs=%v si=%v adv=%v fs=%v po=%v g=%v|", r.choking, out, pu, r.unchokedByStorrent, r.sentInterested, sortedSet(r.adv), sortedSet(r.fastSet), r.pendingOut(), r.grace)
+		fmt.Fprintf(&sb, " ch=%v out=%v pu=%v ubs=%v si=%v adv=%v fs=%v po=%v g=%v mr=%v|", r.choking, out, pu, r.unchokedByStorrent, r.sentInterested, sortedSet(r.adv), sortedSet(r.fastSet), r.pendingOut(), r.grace, r.metaReqs)
 	}
 	var cons []string
 	for k, v := range w.consumers {
